@@ -184,17 +184,152 @@ pub fn profile() -> Profile {
     p
 }
 
+/// Big honest blocks: one block of 150-420 transactions - a fan-out, one spender per fanned-out coin, and chains of
+/// spenders hanging off some of them - built in batches, sealed, and offered to the parent under four differently
+/// ordered transaction sets. Sizes straddle 256 (any internal chunking or 8-bit count would show).
+#[derive(Clone, Debug, serde::Serialize, serde::Deserialize)]
+pub struct BigBlock {
+    pub fan: u8,
+    pub spenders: u8,
+    pub chains: Vec<(u8, u8)>,
+    pub batches: u8,
+    pub action: Option<(i8, u8)>,
+    pub net: u8,
+}
+
+pub fn arb_big_block() -> impl proptest::strategy::Strategy<Value = BigBlock> {
+    use proptest::prelude::*;
+    (100u8..=254, any::<u8>(), proptest::collection::vec((any::<u8>(), 1u8..60), 1..5), 1u8..4, proptest::option::of((any::<i8>(), any::<u8>())), any::<u8>())
+        .prop_map(|(fan, spenders, chains, batches, action, net)| BigBlock { fan, spenders, chains, batches, action, net })
+}
+
+pub fn check_big_block(c: &BigBlock, st: &mut Stats, shard: usize) -> Check {
+    use crate::world::{CovSpec, GenesisSpec, Outcome as O};
+    use melstructs::{CoinData, CoinID, CoinValue, Denom, NetID, Transaction, TxKind};
+    st.eval();
+    let t = CovSpec::True;
+    let out = |v: u128| CoinData { covhash: t.hash(), value: CoinValue(v), denom: Denom::Mel, additional_data: Default::default() };
+    let net = [NetID::Custom02, NetID::Custom08, NetID::Testnet, NetID::Mainnet][c.net as usize % 4];
+    let g = GenesisSpec { net, init: out(1 << 90), init_cov: t.clone(), fee_pool: 0, fee_mult: 100, stakes: vec![] };
+    let mut w = World::new(g, shard);
+    let parent = match w.seal(None) {
+        O::Ok(s) => s,
+        _ => return Ok(()),
+    };
+    let fee = 1u128 << 30;
+    let unit = 1u128 << 50;
+    let fan = c.fan as usize;
+    let mut txs: Vec<Transaction> = vec![];
+    let mut f = Transaction::new(TxKind::Normal);
+    f.inputs = vec![CoinID::zero_zero()];
+    f.covenants = vec![t.bytes().into()];
+    for _ in 0..fan {
+        f.outputs.push(out(unit));
+    }
+    f.outputs.push(out((1u128 << 90) - unit * fan as u128 - fee));
+    f.fee = CoinValue(fee);
+    let fh = f.hash_nosigs();
+    txs.push(f);
+    let spend = |coin: CoinID, v: u128, tag: u32| -> Transaction {
+        let mut s = Transaction::new(TxKind::Normal);
+        s.inputs = vec![coin];
+        s.covenants = vec![t.bytes().into()];
+        s.outputs.push(out(v - fee));
+        s.fee = CoinValue(fee);
+        s.data = tag.to_le_bytes().to_vec().into();
+        s
+    };
+    // one spender per fanned-out coin (all of them, or all but a few)
+    let n_sp = fan - (c.spenders as usize % 8).min(fan);
+    let mut tips: Vec<(CoinID, u128)> = vec![];
+    for i in 0..n_sp {
+        let s = spend(CoinID::new(fh, i as u8), unit, i as u32);
+        tips.push((CoinID::new(s.hash_nosigs(), 0), unit - fee));
+        txs.push(s);
+    }
+    // chains hanging off some spenders
+    let mut tag = 10_000u32;
+    for (at, len) in c.chains.iter() {
+        if tips.is_empty() {
+            break;
+        }
+        let i = *at as usize % tips.len();
+        for _ in 0..*len {
+            let (coin, v) = tips[i];
+            let s = spend(coin, v, tag);
+            tag += 1;
+            tips[i] = (CoinID::new(s.hash_nosigs(), 0), v - fee);
+            txs.push(s);
+        }
+    }
+    // built in 1-3 batches, dependants possibly before their parents inside a batch
+    let nb = c.batches.max(1) as usize;
+    let per = (txs.len() + nb - 1) / nb;
+    for chunk in txs.chunks(per) {
+        let mut b = chunk.to_vec();
+        if c.spenders % 2 == 1 {
+            b.reverse();
+        }
+        match w.apply_batch(&b) {
+            O::Ok(()) => {}
+            O::Rejected(e) => viol!("honest-big-batch-rejected", "a batch of {} honest transactions (block of {}) is rejected: {}", b.len(), txs.len(), e),
+            O::Panicked(_) => {
+                st.exclude("panicked");
+                return Ok(());
+            }
+        }
+    }
+    let sealed = match w.seal(crate::plan::mk_action(c.action)) {
+        O::Ok(s) => s,
+        _ => return Ok(()),
+    };
+    let blk = sealed.to_block();
+    st.class(if blk.transactions.len() > 256 { "big-block-above-256-transactions" } else { "big-block-up-to-256-transactions" });
+    let pool = w.pool.clone();
+    for rot in 0..4 {
+        let b = rebuilt(&blk, rot);
+        match catch(|| pool.install(|| parent.apply_block(&b))) {
+            Ok(Ok(s)) => {
+                if s.header() != blk.header {
+                    viol!("honest-block-wrong-header", "apply_block of a block of {} transactions returned another header than the builder's", blk.transactions.len());
+                }
+            }
+            Ok(Err(e)) => viol!(
+                "honest-big-block-rejected",
+                "a block of {} transactions ({} fanned out, {} spenders, chains {:?}), built by apply_tx_batch + seal, is rejected by its parent: {:?} (set order variant {})",
+                blk.transactions.len(),
+                fan,
+                n_sp,
+                c.chains,
+                e,
+                rot
+            ),
+            Err(_) => {
+                st.exclude("apply_block-panicked");
+                return Ok(());
+            }
+        }
+    }
+    st.nontrivial(crate::util::h64(&blk.header.hash().0));
+    Ok(())
+}
+
 pub fn run(ctx: &Ctx) -> (Outcome, String, Option<bool>) {
     let mut p = profile();
     if ctx.thorough() {
         p.max_steps = 30;
         p.max_txs = 10;
     }
-    let out = super::hist::run_histories(ctx, "histories", p, ctx.scale(500, 5000), C06::default);
-    let rule = "Every block produced in generated histories (built honestly through apply_tx_batch in one or several batches + seal, all kinds of transactions, with and without proposer action, four network classes), and for each ~20 single mutations: each of the 11 header fields (+-1 or a flipped bit), a transaction removed / its data or a signature byte altered / a faucet added, the proposer action removed, added, sent elsewhere, or given another delta whose movement differs. Oracle: parent.apply_block(block) is Ok with header == block.header for the honest block under 4 rebuilt HashSets (fresh hash seeds, rotated insertion order), and Err for every mutation. Evaluations counts blocks; mutation checks are counted in classes. Non-trivial = honest block with >=2 transactions; distinct by block hash.".to_string();
+    let mut out = super::hist::run_histories(ctx, "histories", p, ctx.scale(500, 5000), C06::default);
+    out.absorb(crate::runner::run_sharded(ctx, "big-honest-blocks", ctx.scale(6, 60), arb_big_block, |c, st, shard| check_big_block(c, st, shard)));
+    let rule = "Second phase: honest blocks of 150-420 transactions (a fan-out, one spender per coin, chains of up to 59 dependants), built in 1-3 batches with dependants before or after their parents, re-validated by the parent under 4 rebuilt sets. First phase: every block produced in generated histories (built honestly through apply_tx_batch in one or several batches + seal, all kinds of transactions, with and without proposer action, four network classes), and for each ~20 single mutations: each of the 11 header fields (+-1 or a flipped bit), a transaction removed / its data or a signature byte altered / a faucet added, the proposer action removed, added, sent elsewhere, or given another delta whose movement differs. Oracle: parent.apply_block(block) is Ok with header == block.header for the honest block under 4 rebuilt HashSets (fresh hash seeds, rotated insertion order), and Err for every mutation. Evaluations counts blocks; mutation checks are counted in classes. Non-trivial = honest block with >=2 transactions; distinct by block hash.".to_string();
     (out, rule, None)
 }
 
 pub fn replay(case: &serde_json::Value) -> Check {
+    if case.get("fan").is_some() {
+        let c: BigBlock = serde_json::from_value(case.clone()).map_err(|e| crate::evidence::Violation::new("replay-format", e.to_string()))?;
+        return check_big_block(&c, &mut Stats::default(), 200);
+    }
     super::hist::replay_history(case, &profile(), C06::default())
 }
